@@ -18,6 +18,7 @@ fn meaning(ch: &mut Choices, case: &mut Case) -> Result<(), String> {
         dense: ch.chance(65),
         canonical_pct: ch.pick(&[85, 60, 100, 0]),
         max_day_offset: 30,
+        long_pct: 2,
         ..Cfg::default()
     };
     let g = gen_case(ch, &cfg)?;
@@ -62,7 +63,7 @@ fn meaning(ch: &mut Choices, case: &mut Case) -> Result<(), String> {
 /// Thorough: one expression, every day of 1900..9999.
 fn sweep(ch: &mut Choices, case: &mut Case) -> Result<(), String> {
     let base_year = ch.pick(&[2020, 1900, 9990]);
-    let cfg = Cfg { max_rules: 4, base_year, dense: true, canonical_pct: 85, max_day_offset: 30, ..Cfg::default() };
+    let cfg = Cfg { max_rules: 4, base_year, dense: true, canonical_pct: 85, max_day_offset: 30, long_pct: 2, ..Cfg::default() };
     let g = gen_case(ch, &cfg)?;
     case.key = g.text.clone();
     let norm = guard(|| g.oh.normalize()).map_err(|p| format!("`{}`: normalize panicked: {p}", g.text))?;
@@ -104,9 +105,9 @@ pub fn property() -> Property {
                 rule: "generated expression (1-5 rules, 65 % 'dense' so that rules overlap; canonical and non-canonical rules, all operators and kinds) vs normalize(): same kind on every minute of 16 expression-aware dates (a third of them the day after an interesting day, for spills) under generated calendars, same state() at 4 instants; non-trivial = the normal form differs structurally from the input",
                 f: meaning,
                 text_f: Some(meaning_text),
-                cases_quick: 40_000,
+                cases_quick: 150_000,
                 cases_thorough: 1_200_000,
-                max_choices: 360,
+                max_choices: 400,
             },
             SubCheck {
                 name: "sweep",
